@@ -4,7 +4,7 @@ from __future__ import annotations
 import ast
 
 from ..core import AnalysisError, call_name, const_value, unparse, walk_no_nested
-from ..exprs import single_defs
+from ..exprs import canon_unparse, single_defs
 from ..selftest import B, M
 from .common import F_BASE, F_MULTI, calls, cfg_of, construct, loc, path_str, short
 
@@ -108,9 +108,9 @@ def rule_class_domain(ctx):
     ok = unparse(pdefs.get("y_copy", ast.Constant(None))) == "y.astype(str)"
     ctx.ob(R, construct(prep, "classes are compared as strings (y.astype(str))"), ok, loc(prep))
     tc = defs.get("target_class")
-    ok = tc is not None and unparse(tc).replace(" ", "") == "(y_copy==y_class).astype(int)"
+    ok = tc is not None and canon_unparse(tc) == "(y_class==y_copy).astype(int)"
     dev = [n for n in walk_no_nested(fi.node) if isinstance(n, ast.Assign) and unparse(n.targets[0]) == "target_class_dev" and not isinstance(n.value, ast.Constant)]
-    ok = ok and len(dev) == 1 and unparse(dev[0].value).replace(" ", "") == "(y_dev_copy==y_class).astype(int)"
+    ok = ok and len(dev) == 1 and canon_unparse(dev[0].value) == "(y_class==y_dev_copy).astype(int)"
     fits = [c for c in calls(fi, "fit") if unparse(c.func.value) == "binary_carver"]
     ok = ok and len(fits) == 1 and [unparse(a) for a in fits[0].args] == ["x_copy", "target_class"] and {k.arg: unparse(k.value) for k in fits[0].keywords} == {"X_dev": "x_dev_copy", "y_dev": "target_class_dev"}
     ctx.ob(R, construct(fi, "each carver is fitted on the 0/1 indicator of its class, train and dev"), ok, loc(fi))
